@@ -3,7 +3,6 @@ package rules
 import (
 	"go/ast"
 	"go/token"
-	"strings"
 
 	"jsverif/internal/core"
 )
@@ -12,15 +11,14 @@ import (
 // arguments, and why each is safe / where the panic is converted.
 var stdPanicTable = map[string]string{
 	"notations/jschema/ischema/constraint.NewRegex:regexp.MustCompile": "the string panic of MustCompile is raised under the loader's CatchLexEventError converter (both rule loaders call NewConstraintFromRule under it) and is turned into a positioned ErrGeneric diagnostic",
-	"(*kit.JSchemaError).pointerToTheErrorCharacter:strings.Repeat":   "count = index - lineBegin - leadingBlanks; an error index never lies inside the leading blanks of a line that has a non-blank byte, and for an all-blank line CountSpacesFromLeft returns 0 (contract checked below), so the count is >= 0",
 }
 
 // c16render: rendering a diagnostic never panics.
 func c16render(c *core.Ctx) { c16renderAs(c, "C16.render") }
 
 func c16renderAs(c *core.Ctx, R string) {
-	c.Rule(R, "(a) every call of a standard-library function that panics on a bad non-constant argument (strings.Repeat with a negative count, regexp.MustCompile, template.Must) is guarded or tabled with the invariant that makes it safe; (b) the callee side of the tabled invariant for JSchemaError.String(): bytes.Bytes.CountSpacesFromLeft returns the loop index at the first non-blank byte and the constant 0 when there is none - the pointer line `--^` is built with strings.Repeat(\"-\", index - lineBegin - spaces), which panics with a raw runtime error if the blanks of an all-blank last line were counted")
-	c.Floor(R, 3)
+	c.Rule(R, "every call of a standard-library function that panics on a bad non-constant argument (strings.Repeat with a negative count, regexp.MustCompile, template.Must) is guarded or tabled with the invariant that makes it safe. The pointer line `--^` of JSchemaError.String() is built with strings.Repeat(\"-\", index - lineBegin - leadingBlanks): the count must be clamped (or proven) non-negative at the call, no invariant about where error indexes lie is trusted")
+	c.Floor(R, 2)
 	n := 0
 	for _, cs := range c.P.Calls() {
 		name := core.FullName(core.Callee(cs.Pkg, cs.Call))
@@ -57,6 +55,10 @@ func c16renderAs(c *core.Ctx, R string) {
 					}
 				}
 			}
+			// clamp idiom: `if cnt < 0 { cnt = 0 }` is the statement right before the one holding the call
+			if !guarded {
+				guarded = clampedBefore(cs.Stack, cnt)
+			}
 			if guarded {
 				c.OKd(R, key, pos, what, "count guarded non-negative")
 				continue
@@ -68,37 +70,36 @@ func c16renderAs(c *core.Ctx, R string) {
 			c.Bad(R, key, pos, what, "the standard-library call panics (with a non-error value or a raw runtime error) on a bad argument and neither a guard nor a reasoned table entry covers it")
 		}
 	}
-	// (b) contract of CountSpacesFromLeft
-	d := c.P.FindDecl("(bytes.Bytes).CountSpacesFromLeft")
-	if d == nil {
-		c.Unresolved(R, "(bytes.Bytes).CountSpacesFromLeft")
-		return
-	}
-	okLoop, okTail := false, false
-	for _, st := range d.Decl.Body.List {
-		switch x := st.(type) {
-		case *ast.RangeStmt:
-			idx := ""
-			if x.Key != nil {
-				idx = core.ExprStr(x.Key)
-			}
-			ast.Inspect(x.Body, func(nd ast.Node) bool {
-				if ifs, ok := nd.(*ast.IfStmt); ok && strings.Contains(core.ExprStr(ifs.Cond), "IsBlank(") && strings.HasPrefix(core.ExprStr(ifs.Cond), "!") {
-					for _, s2 := range ifs.Body.List {
-						if r, ok := s2.(*ast.ReturnStmt); ok && len(r.Results) == 1 && core.ExprStr(r.Results[0]) == idx && idx != "" {
-							okLoop = true
-						}
-					}
-				}
-				return true
-			})
-		case *ast.ReturnStmt:
-			if len(x.Results) == 1 {
-				if v := core.ConstOf(d.Pkg, x.Results[0]); v != nil && v.ExactString() == "0" {
-					okTail = true
-				}
-			}
+}
+
+// clampedBefore: in the innermost block holding the call, the statement just before the one
+// containing the call is `if <cnt> < 0 { <cnt> = 0 }` (or <= -1 / assigns a non-negative constant).
+func clampedBefore(stack []ast.Node, cnt string) bool {
+	for i := len(stack) - 1; i > 0; i-- {
+		blk, ok := stack[i-1].(*ast.BlockStmt)
+		if !ok {
+			continue
 		}
+		for j, st := range blk.List {
+			if st != stack[i] || j == 0 {
+				continue
+			}
+			ifs, ok := blk.List[j-1].(*ast.IfStmt)
+			if !ok || ifs.Init != nil || ifs.Else != nil {
+				return false
+			}
+			be, ok := ifs.Cond.(*ast.BinaryExpr)
+			if !ok || be.Op != token.LSS || core.ExprStr(be.X) != cnt || core.ExprStr(be.Y) != "0" {
+				return false
+			}
+			for _, s2 := range ifs.Body.List {
+				if as, ok := s2.(*ast.AssignStmt); ok && len(as.Lhs) == 1 && len(as.Rhs) == 1 && core.ExprStr(as.Lhs[0]) == cnt && core.ExprStr(as.Rhs[0]) == "0" {
+					return true
+				}
+			}
+			return false
+		}
+		return false
 	}
-	c.Check(okLoop && okTail, R, "CountSpacesFromLeft:contract", c.P.Pos(d.Decl.Pos()), "CountSpacesFromLeft = index of the first non-blank byte, 0 if there is none", core.F("the contract the diagnostic renderer relies on is broken (first-non-blank index returned: %v, constant 0 for all-blank input: %v): String() of an error positioned on an all-blank last line panics with `strings: negative Repeat count`", okLoop, okTail))
+	return false
 }
